@@ -29,6 +29,7 @@ def plan(tier, seed):
     ncli = 2 if tier == "quick" else 6
     shards += [{"part": "cli", "seed": seed, "tier": tier, "k": i} for i in range(ncli)]
     shards += [{"part": "qevents", "seed": seed, "tier": tier, "k": i} for i in range(ncli)]
+    shards += [{"part": "ensevents", "seed": seed, "tier": tier, "k": i} for i in range(ncli)]
     shards += [{"part": "ambient", "seed": seed, "tier": tier, "k": i, "n": 150 if tier == "quick" else 1200}
                for i in range(4)]
     return shards
@@ -346,7 +347,59 @@ def run_quantile_events(desc, ctx):
                           {"bin": b})
 
 
+def run_ensemble_events(desc, ctx):
+    """event probabilities taken from ensemble members: P(X<=upper) - P(X<=lower) over the PRESENT members only (a missing
+    member belongs to no event), for every bin type, through metric.get_p on a real dataset"""
+    import numpy as np
+    import verif.metric
+    import verif.util
+    from vmon import refmodel, vutil
+    rng = random.Random("C07-ens-%s-%s" % (desc["seed"], desc["k"]))
+    d = os.path.join(ctx.workdir, "ensev")
+    os.makedirs(d, exist_ok=True)
+    M = rng.randint(2, 5)
+    inp = gen.make_input(rng, "ens.txt", "text", gen.pick_times(rng, 3), [0, 12, 24], gen.LOC_POOL[:3], members=M, miss=0.0, vrange=(0, 8),
+                         integerish=True)
+    for c in inp["cells"].values():
+        r = rng.random()
+        if r < 0.4:
+            for j in rng.sample(range(M), rng.randint(1, M - 1)):
+                c["e"][j] = None
+        elif r < 0.5:
+            c["e"] = [None] * M
+    path = gen.write_input(inp, d, rng)
+    ds = {"inputs": [inp], "clim": None}
+    data = vutil.build_data([path])
+    ts = [2.0, 5.0]
+    for b in BINS:
+        ul, lc, uu, uc = attach.BIN_TABLE[b]
+        ivs = verif.util.get_intervals(b, np.array(ts))
+        for i, iv in enumerate(ivs):
+            t0 = ts[i]
+            t1 = ts[i + 1] if (ul and uu) else None
+            obsP, p = verif.metric.get_p(data, 0, vutil.vaxis("no"), 0, iv)
+            flds = [("obs",)] + ([("thr", t0), ("thr", t1)] if (ul and uu) else [("thr", t0)])
+            cases = refmodel.valid_cases(ds, 0, flds)
+            want_p = []
+            want_o = []
+            for c in cases:
+                v = c[3]
+                want_o.append(1.0 if attach.in_documented_event(v[0], b, t0, t1) else 0.0)
+                want_p.append(v[2] - v[1] if (ul and uu) else (v[1] if uu else 1.0 - v[1]))
+            gp = sorted(float(x) for x in np.asarray(p, float).flatten() if x == x)
+            go = sorted(float(x) for x in np.asarray(obsP, float).flatten() if x == x)
+            ctx.count("prob_checked", len(want_p))
+            ctx.case("%s|inc2|nan|ensemble-probability" % b, True, {"bin": b, "thresholds": ts, "members": M})
+            if len(gp) != len(want_p) or any(abs(a - b_) > 1e-6 for a, b_ in zip(gp, sorted(want_p))):
+                ctx.violation("ensemble-event-probability|%s" % b, "bin %s %s: probabilities from the ensemble %s, fraction of PRESENT members gives %s"
+                              % (b, (t0, t1), gp[:10], sorted(want_p)[:10]), {"bin": b})
+            if go != sorted(want_o):
+                ctx.violation("ensemble-event-observed|%s" % b, "bin %s: observed event indicators differ" % b, {"bin": b})
+
+
 def run_shard(desc, ctx):
+    if desc["part"] == "ensevents":
+        return run_ensemble_events(desc, ctx)
     if desc["part"] == "qevents":
         return run_quantile_events(desc, ctx)
     if desc["part"] == "api":
